@@ -30,13 +30,13 @@ def doc? (s : String) : Option (Option Doc) :=
 def list? {α : Type} (s : String) (sep : Char) (f : String → Option α) : Option (List α) :=
   if s == "-" || s.isEmpty then some [] else (splitOn s sep).mapM f
 
-def refdb? (s : String) : Option Refdb := do
+/-- `dups`: an advertisement may list a reference more than once; a refdb has one entry per reference. -/
+def refdb? (s : String) (dups : Bool) : Option Refdb := do
   let es ← list? s ',' (fun e =>
     match splitOn e ':' with
     | [k, n, o] => do some (((← nat? k), (← nat? n)), (← nat? o))
     | _ => none)
-  -- a refdb has at most one entry per reference
-  if (es.map (·.1)).eraseDups.length == es.length then some es else none
+  if dups || (es.map (·.1)).eraseDups.length == es.length then some es else none
 
 def blobEntry? (s : String) : Option ((Key × Oid) × Option Blob) :=
   match splitOn s ':' with
@@ -114,8 +114,8 @@ def runWorld : List String → String
           match splitOn e ':' with
           | [k, o] => do some ((← nat? k), (← nat? o))
           | _ => none)).map some)
-      let L ← refdb? (← kv? "L" l)
-      let A ← refdb? (← kv? "A" a)
+      let L ← refdb? (← kv? "L" l) false
+      let A ← refdb? (← kv? "A" a) true
       let blobs ← list? (← kv? "B" b) ';' blobEntry?
       let ancs ← list? (← kv? "ANC" anc) ',' anc?
       if nId == nSig || !rad.contains nId || !rad.contains nSig then none else
